@@ -41,8 +41,8 @@ PROPS = {
     },
     "C19": {
         "pkg": "handlers", "level": "exploration",
-        "quick": {"stages": [st("^TestC19", 1500)]},
-        "thorough": {"stages": [st("^TestC19", 30000, shards=12, timeout=3000), st("^TestC19", 4000, shards=4, race=True, timeout=3000)]},
+        "quick": {"stages": [st("^TestC19(Metrics|Concurrent)", 1500), st("^TestC19ParallelDirections", 120, shards=4)]},
+        "thorough": {"stages": [st("^TestC19(Metrics|Concurrent)", 30000, shards=12, timeout=3000), st("^TestC19ParallelDirections", 4000, shards=8, timeout=3000), st("^TestC19", 3000, shards=4, race=True, timeout=3000)]},
     },
     "C08": {
         "pkg": "handlers", "level": "exploration",
@@ -91,8 +91,8 @@ PROPS = {
     },
     "C15": {
         "pkg": "core", "level": "exploration",
-        "quick": {"stages": [st("^TestC15Linearizable", 500), st("^TestC15Stress", 60), st("^TestC15", 40, race=True)]},
-        "thorough": {"stages": [st("^TestC15Linearizable", 8000, shards=8, timeout=3000), st("^TestC15Stress", 600, shards=4, timeout=3000), st("^TestC15", 500, shards=4, race=True, timeout=3000)]},
+        "quick": {"stages": [st("^TestC15Linearizable", 500), st("^TestC15Stress", 60), st("^TestC15ReadYourWrites", 30), st("^TestC15HandlerSessions", 20), st("^TestC15", 25, race=True)]},
+        "thorough": {"stages": [st("^TestC15Linearizable", 8000, shards=8, timeout=3000), st("^TestC15Stress", 600, shards=3, timeout=3000), st("^TestC15ReadYourWrites", 400, shards=2, timeout=3000), st("^TestC15HandlerSessions", 300, shards=1, timeout=3000), st("^TestC15", 300, shards=4, race=True, timeout=3000)]},
     },
     "C10": {
         "pkg": "core", "level": "exploration",
